@@ -421,6 +421,7 @@ fn fam_monty_select<const N: usize>(ctx: &Ctx) {
                 let y = MontyForm::from_montgomery(u::<N>(&resize(&[rb], N)), pq);
                 cs.group();
                 chk!(cs, "MontyForm::ct_eq == (==)", &b(x == y), b(bool::from(x.ct_eq(&y))));
+                cs.group();
                 chk!(cs, "MontyForm::ct_ne == (!=)", &b(x != y), b(bool::from(x.ct_ne(&y))));
                 for ch in [0u8, 1] {
                     let c = Choice::from(ch);
@@ -449,7 +450,8 @@ fn fam_monty_select<const N: usize>(ctx: &Ctx) {
             let want = if ch == 0 { r1 } else { r2 };
             cs.group();
             chk!(cs, "Reciprocal::conditional_select (== chosen)", &b(true), b(crypto_bigint::Reciprocal::conditional_select(&r1, &r2, Choice::from(ch)) == want));
-            // and it still divides by the chosen divisor
+            // and it still divides by the chosen divisor (a different statement: its own group)
+            cs.group();
             let dv = if ch == 0 { d1 } else { d2 };
             let a = u::<N>(&vec![MAX; N]);
             let sel = crypto_bigint::Reciprocal::conditional_select(&r1, &r2, Choice::from(ch));
